@@ -72,7 +72,12 @@ impl Reservoir {
         if idx < self.values.len() {
             self.values[idx].store(value.to_bits(), Relaxed);
         } else {
-            let maybe_idx = fastrand(idx);
+            // Algorithm R: the item at (zero-based) position `idx` replaces a random slot with
+            // probability `capacity / (idx + 1)`, so the candidate slot must be drawn from
+            // `0..=idx`. Drawing from `0..idx` over-retains late items, and is an empty range for
+            // a zero-capacity reservoir.
+            let maybe_idx = fastrand(idx + 1);
+
             if maybe_idx < self.values.len() {
                 self.values[maybe_idx].store(value.to_bits(), Relaxed);
             }
